@@ -54,7 +54,7 @@ def alias_case(rng, tier):
     x = rand_coeffs(rng, (D, P) + shape, -2, 2)
     from props import c01
     x[0] = c01.gen_x0(rng, 'nz', (P,) + shape, False)
-    return {'op': 'alias', 'sym': rng.choice(sorted(BIN)), 'mode': rng.choice(['bin', 'inplace-self', 'inplace-buffer', 'inplace-view', 'kernel']),
+    return {'op': 'alias', 'sym': rng.choice(sorted(BIN)), 'mode': rng.choice(['bin', 'inplace-self', 'inplace-buffer', 'inplace-view', 'inplace-dirrev', 'inplace-coefrev', 'kernel']),
             'D': D, 'P': P, 'x': x}
 
 
@@ -81,6 +81,17 @@ def alias_fails(ctx, case):
         x = UTPM(x0.copy())
         got = IBIN[sym](x, UTPM(x.data[:, :, ::-1]))   # overlapping reversed view
         want = IBIN[sym](UTPM(x0.copy()), UTPM(x0[:, :, ::-1].copy()))
+    elif mode in ('inplace-dirrev', 'inplace-coefrev'):
+        # the right operand is a view of the left one that runs over the direction axis / the coefficient axis backwards
+        ax = 1 if mode == 'inplace-dirrev' else 0
+        if x0.shape[ax] < 2:
+            return None
+        rev = np.flip(x0, axis=ax)
+        if sym == 'div' and np.any(np.abs(rev[0]) < 0.2):
+            return None
+        x = UTPM(x0.copy())
+        got = IBIN[sym](x, UTPM(np.flip(x.data, axis=ax)))
+        want = IBIN[sym](UTPM(x0.copy()), UTPM(rev.copy()))
     else:
         # the raw kernel with out aliasing an operand, against the heap model
         which = sym
